@@ -69,7 +69,7 @@ def t_cfg(ctx, kd):
     return cfg
 
 
-def judge_trace(ctx, trace, source, kd, totals, max_events=20000):
+def judge_trace(ctx, trace, source, kd, totals, max_events=30000):
     v = lib.judge(ctx, MODULE_T, t_cfg(ctx, kd), trace, max_events=max_events)
     ndev = {fid: v.get("dev_" + fid, 0) for fid in ALL_DEVS if v.get("dev_" + fid, 0)}
     ctx.stage("judge", source=source, events=v["events"], violations=v.get("nviol", 0), deviations=ndev, wall_s=v["wall_s"], chunks=v["chunks"])
@@ -132,7 +132,7 @@ def cfgs(quick):
     if quick:
         return [c("chain", "full", 3), c("chain", "lean", 4), c("cache", "full", 3), c("dur", "lean", 3), c("dur", "full", 2), c("repair", "lean", 2),
                 c("stor", "lean", 3), c("stor", "full", 2), c("binfo", "lean", 2), c("binfo", "full", 1), c("val", "full", 0),
-                c("kres", "full", 3), c("kresflip", "full", 1), c("kidx", "full", 4), c("kidxflip", "full", 1)]
+                c("kres", "full", 3), c("kresflip", "full", 1), c("kidx", "full", 3), c("kidxflip", "full", 1)]
     return [c("chain", "full", 4, 2), c("chain", "lean", 5, 2), c("cache", "full", 4, 2), c("dur", "lean", 4, 2), c("dur", "full", 3), c("repair", "lean", 3),
             c("stor", "lean", 4, 2), c("stor", "full", 3), c("binfo", "full", 3, 2), c("val", "full", 0),
             c("kres", "full", 4, 2), c("kresflip", "full", 2), c("kidx", "full", 5, 2), c("kidxflip", "full", 2)]
